@@ -80,7 +80,7 @@ def the_record():
 
         d = RecordDescriptor("c09/rec", [("string", "s"), ("varint", "n"), ("stringlist", "sl"), ("record", "c"),
                                          ("record[]", "cs"), ("uri", "u")])
-        _REC = d("abc", 3, ["x", "y"], Canary("c"), [Canary("cs0")], "http://h/p", _generated=GEN)
+        _REC = d("aBc", 3, ["X", "y"], Canary("c"), [Canary("cs0")], "http://h/p", _generated=GEN)
     return _REC
 
 
@@ -120,6 +120,18 @@ def targets(meth):
         ("generator-var-call-after-inner-generator", "any([all(q for q in [1]), f()] for f in [r.c.%s])" % meth),
         ("generator-var-call-after-inner-generator", "any(any(f() for q in [1]) for f in [r.c.%s])" % meth),
         ("generator-var-call-after-sibling-generator", "any(q for q in [0]) or any(f() for f in [r.c.%s])" % meth),
+        # the variable used in the other parts of the comprehension that binds it (condition, later 'for', nested)
+        ("generator-var-call-in-own-condition", "any(True for f in [r.c.%s] if f())" % meth),
+        ("generator-var-call-in-own-condition", "any(True for f in [r.c.%s, r.c.%s] if f())" % (meth, meth)),
+        ("generator-var-call-in-own-condition", "any(True for f in [r.s.%s] if f() is None)" % meth),
+        ("generator-var-call-in-own-condition", "all(True for f in [r.c] if f.%s())" % meth),
+        ("generator-var-call-in-own-condition", "any(True for f in [r.c.%s] if True if f())" % meth),
+        ("generator-var-call-in-later-for", "any(True for f in [r.c.%s] for g in f())" % meth),
+        ("generator-var-call-in-later-for", "any(g for f in [r.c.%s] for g in [f()])" % meth),
+        ("generator-var-call-in-later-for", "any(True for f in [r.c.%s] for g in [1] if f())" % meth),
+        ("generator-var-call-in-later-for", "any(True for g in [1] for f in [r.c.%s] if f())" % meth),
+        ("generator-var-call-in-nested-iterable", "any(any(q for q in f()) for f in [r.c.%s])" % meth),
+        ("generator-var-call-in-nested-iterable", "any(any(True for q in [1] if f()) for f in [r.c.%s])" % meth),
         ("generator-var-named-like-whitelisted", "any(%s() for %s in [r.c.m])" % (meth, meth)),
         ("generator-var-named-like-whitelisted", "any(%s(1) for %s in [r.c.m, r.s.upper])" % (meth, meth)),
         ("call-of-call", "r.c.%s()()" % meth),
@@ -213,6 +225,15 @@ BENIGN = [
     "string('x')", "any(q == 1 for q in [1])", "all(q for q in [1])", "field_contains(r, ['s'], ['a'])",
     "names(r)", "get_type(r.s)", "field_equals(r, ['s'], ['abc'])", "field_regex(r, ['s'], 'a')", "fields('string')",
     "uri('http://x/')", "net.ipnetwork('10.0.0.0/8')",
+    # whitelisted helpers given the record's own (mixed-case) containers and values as every argument: allowed, and
+    # the record must look the same afterwards
+    "field_contains(r, ['s'], r.sl)", "field_contains(r, r.sl, ['a'])", "field_contains(r, r.sl, r.sl)",
+    "field_contains(r, ['sl'], r.sl)", "field_contains(r, ['s', 'u'], r.sl, word_boundary=True)",
+    "field_equals(r, ['s'], r.sl)", "field_equals(r, r.sl, r.sl)", "field_equals(r, ['sl', 's'], r.sl, nocase=True)",
+    "field_regex(r, r.sl, 'a')", "field_regex(r, ['s'], r.s)", "lower(r.sl)", "upper(r.sl)", "lower(r.s)", "upper(r.u)",
+    "str(r.sl)", "repr(r.sl)", "any(q for q in r.sl)", "all(lower(q) == 'x' for q in r.sl)", "r.sl + ['q']", "r.sl * 2",
+    "names(r)", "name(r)", "get_type(r.sl)", "has_field(r, 'sl')", "r.sl[0]", "r.sl[::-1]", "'X' in r.sl",
+    "any(field_contains(r, ['s'], [q]) for q in r.sl)", "string(r.s)", "uri(r.u)", "stringlist(r.sl)",
 ]
 
 
